@@ -76,7 +76,7 @@ Definition mk (n : nat) (k : ikind) (q : list nat) := {| id := n; kind := k; qs 
 (* ---- gauge bookkeeping of the loop (C02): apply_window moves the orthogonality centre from site 0 to the start of the
    window, i.e. it presupposes a right-canonical state (centre at 0); after every two-qubit gate the loop restores that form
    (normalize(form="B") without noise, the lottery's final sweep with noise) ---- *)
-Inductive gstep := GOne | GTwo | GRestore.
+Inductive gstep := GOne | GTwo | GRestore | GRead.   (* GRead: evaluate_observables / measure_shots, both sweep from site 0 *)
 Definition gauge_word (ex : list instr) : list gstep :=
   flat_map (fun i => if is_kind G2 i then [GTwo; GRestore] else [GOne]) ex.
 (* state: is the centre known to be at site 0?  output: was the precondition of each step met? *)
@@ -86,4 +86,42 @@ Fixpoint gauge_run (at0 : bool) (w : list gstep) : list bool :=
   | GOne :: r => true :: gauge_run at0 r           (* a one-site contraction needs no gauge and keeps the centre *)
   | GTwo :: r => at0 :: gauge_run false r          (* needs the centre at 0; leaves it inside the window *)
   | GRestore :: r => true :: gauge_run true r
+  | GRead :: r => at0 :: gauge_run at0 r          (* reads a copy: needs the centre at 0, leaves the state alone *)
   end.
+
+(* ---- the whole noise-free trajectory as a gauge word, read events included (C16: weak mode measures BEFORE the final
+   normalisation that strong mode performs when `canonical_form_lost` is set) ---- *)
+Definition is_nil {A} (l : list A) := match l with [] => true | _ => false end.
+Definition iter_g (sampling : bool) (rem : list instr) : list gstep * bool * list instr :=
+  let layer := front rem in
+  let dropped := filter (fun i => is_kind Meas i || is_kind Bar i) layer in
+  let singles := sort_by (filter (is_kind G1) layer) in
+  let evens := sort_by (filter (fun i => is_kind G2 i && is_even i) layer) in
+  let odds := sort_by (filter (fun i => is_kind G2 i && negb (is_even i)) layer) in
+  let sb := filter (is_kind SBar) layer in
+  let exec := singles ++ evens ++ odds in
+  (gauge_word exec ++ (if sampling then map (fun _ => GRead) sb else []),
+   (* canonical_form_lost: removing a one-qubit gate left the DAG without operations *)
+   negb (is_nil singles) && is_nil (remove_all (dropped ++ singles) rem),
+   remove_all (dropped ++ exec ++ sb) rem).
+Fixpoint run_g (sampling : bool) (fuel : nat) (rem : list instr) : option (list gstep * bool) :=
+  match rem with
+  | [] => Some ([], false)
+  | _ => match fuel with
+         | O => None
+         | S f => let '(w, fl, rem') := iter_g sampling rem in
+                  match run_g sampling f rem' with
+                  | Some (w', fl') => Some (w ++ w', fl || fl')
+                  | None => None
+                  end
+         end
+  end.
+Inductive mode := StrongPlain | StrongSampling | Weak.
+Definition samples (m : mode) := match m with StrongSampling => true | _ => false end.
+Definition traj_word (m : mode) (c : list instr) : option (list gstep) :=
+  match run_g (samples m) (length c) c with
+  | Some (w, lost) => Some ((if samples m then [GRead] else []) ++ w ++
+                            match m with Weak => [GRead] | _ => (if lost then [GRestore] else []) ++ [GRead] end)
+  | None => None
+  end.
+Definition no_read (g : gstep) := match g with GRead => false | _ => true end.
